@@ -49,7 +49,7 @@
 (* it against every edge of the real netlists' graphs, WbIcModelM checks   *)
 (* it against the clauses of WbIcContract at sizes G-mode cannot afford.   *)
 (***************************************************************************)
-EXTENDS Integers, Sequences, FiniteSets
+EXTENDS Integers, Sequences, FiniteSets, Bitwise
 
 B(x) == IF x THEN 1 ELSE 0
 P2(k) == 2^k
@@ -58,11 +58,27 @@ MinOf(S) == CHOOSE x \in S : \A y \in S : x <= y
 Clamp(i, top) == IF i > top THEN top ELSE i                \* migen Array: an index beyond the end selects the last element
 BitsFor(x) == CHOOSE k \in 1..31 : P2(k) > x /\ (k = 1 \/ P2(k - 1) <= x)    \* migen bits_for(x), x >= 0
 
-Word(x, w) == { k \in 0..(w - 1) : k < 31 /\ Bit(x, k) = 1 }     \* small constant -> data word
-AllOnes(w) == 0..(w - 1)                                       \* 2**len(dat_w) - 1
-Zero == {}
-RECURSIVE OrWords(_, _)
-OrWords(ws, k) == IF k = 0 THEN Zero ELSE ws[k] \cup OrWords(ws, k - 1)     \* Reduce("OR", ...)
+(* <<F(1), ..., F(n)>>, built eagerly.  (TLC evaluates a function constructor [i \in 1..n |-> F(i)] lazily and   *)
+(* again at every application; nested, that multiplies.  Every vector of this module is therefore a tuple.)      *)
+(* (SANY has no recursive operators with operator arguments: vectors have at most 6 elements.)                    *)
+Tab(n, F(_)) ==
+  CASE n = 0 -> <<>>
+    [] n = 1 -> <<F(1)>>
+    [] n = 2 -> <<F(1), F(2)>>
+    [] n = 3 -> <<F(1), F(2), F(3)>>
+    [] n = 4 -> <<F(1), F(2), F(3), F(4)>>
+    [] n = 5 -> <<F(1), F(2), F(3), F(4), F(5)>>
+    [] n = 6 -> <<F(1), F(2), F(3), F(4), F(5), F(6)>>
+
+(* data word on the return path: sequence of 16-bit limbs, least significant first *)
+Limbs(w) == (w + 15) \div 16
+LimbMax(w, k) == IF k < Limbs(w) \/ w % 16 = 0 THEN 65535 ELSE P2(w % 16) - 1
+Word(x, w) == Tab(Limbs(w), LAMBDA k : IF k = 1 THEN x ELSE 0)      \* small constant (x < 2^16) -> data word
+AllOnes(w) == Tab(Limbs(w), LAMBDA k : LimbMax(w, k))              \* 2**len(dat_w) - 1
+Zero(w) == Tab(Limbs(w), LAMBDA k : 0)
+OrWord(a, b) == Tab(Len(a), LAMBDA k : a[k] | b[k])
+RECURSIVE OrWords(_, _, _)
+OrWords(ws, k, w) == IF k = 0 THEN Zero(w) ELSE OrWord(ws[k], OrWords(ws, k - 1, w))     \* Reduce("OR", ...)
 RECURSIVE OrBits(_, _)
 OrBits(bs, k) == IF k = 0 THEN 0 ELSE IF bs[k] = 1 THEN 1 ELSE OrBits(bs, k - 1)
 RECURSIVE CatBits(_, _)
@@ -88,24 +104,24 @@ RRNext(n, grant, req) ==                          \* req: sequence of n request 
 (* Array(masters' signals)[rr.grant]; ack and err go back to the granted   *)
 (* master only, dat_r to all of them; rr.request = Cat(cyc of the masters) *)
 ArbDown(n, grant, ms) == ms[Clamp(grant, n - 1) + 1]
-ArbReq(n, ms) == [i \in 1..n |-> ms[i].cyc]
+ArbReq(n, ms) == Tab(n, LAMBDA i : ms[i].cyc)
 ArbUp(n, grant, t) ==
-  [i \in 1..n |-> [ack |-> B(t.ack = 1 /\ grant = i - 1), err |-> B(t.err = 1 /\ grant = i - 1), dat_r |-> t.dat_r]]
+  Tab(n, LAMBDA i : [ack |-> B(t.ack = 1 /\ grant = i - 1), err |-> B(t.err = 1 /\ grant = i - 1), dat_r |-> t.dat_r])
 
 (* Decoder(master, slaves, register)                                       *)
 Match(reg, a) ==
   CASE reg.k = "mask"  -> (a \div reg.size) = (reg.lo \div reg.size)       \* a[log2(size):] == origin >> log2(size)
     [] reg.k = "range" -> a >= reg.lo /\ a < reg.lo + reg.size
     [] reg.k = "true"  -> TRUE
-DecSel(m, a) == [j \in 1..m.ns |-> B(Match(m.regions[j], a))]              \* slave_sel (combinational)
+DecSel(m, a) == Tab(m.ns, LAMBDA j : B(Match(m.regions[j], a)))              \* slave_sel (combinational)
 DecDown(m, mm, sel) ==                                                     \* all signals but cyc are passed to every slave
-  [j \in 1..m.ns |-> [mm EXCEPT !.cyc = B(mm.cyc = 1 /\ sel[j] = 1)]]
+  Tab(m.ns, LAMBDA j : [mm EXCEPT !.cyc = B(mm.cyc = 1 /\ sel[j] = 1)])
 (* return path: ack/err = OR of the slaves', dat_r = OR of the slaves' data masked with slave_sel_r,    *)
 (* which is the registered select if register else the combinational one                                *)
 DecUp(m, selr, ss) ==
-  [ack   |-> OrBits([j \in 1..m.ns |-> ss[j].ack], m.ns),
-   err   |-> OrBits([j \in 1..m.ns |-> ss[j].err], m.ns),
-   dat_r |-> OrWords([j \in 1..m.ns |-> IF Bit(selr, j - 1) = 1 THEN ss[j].dat_r ELSE Zero], m.ns)]
+  [ack   |-> OrBits(Tab(m.ns, LAMBDA j : ss[j].ack), m.ns),
+   err   |-> OrBits(Tab(m.ns, LAMBDA j : ss[j].err), m.ns),
+   dat_r |-> OrWords(Tab(m.ns, LAMBDA j : IF Bit(selr, j - 1) = 1 THEN ss[j].dat_r ELSE Zero(m.dw)), m.ns, m.dw)]
 DecSelR(m, regs, k, sel) == IF m.register = 1 THEN regs[k] ELSE CatBits(sel, m.ns)
 
 (* WaitTimer(t): count = Signal(bits_for(t), reset = t); done = (count == 0);                          *)
@@ -125,7 +141,7 @@ TBMaster(m, iv, i) ==
       tgt == iv[3 * (i - 1) + 2]
   IN [cyc |-> B(req # 0), stb |-> B(req = 1), we |-> iv[3 * (i - 1) + 3],
       adr |-> m.adrs[Clamp(tgt, Len(m.adrs) - 1) + 1], dat_w |-> i]
-TBMasters(m, iv) == [i \in 1..m.n |-> TBMaster(m, iv, i)]
+TBMasters(m, iv) == Tab(m.n, LAMBDA i : TBMaster(m, iv, i))
 (* slave j: answers in the cycle it sees cyc & stb (minlat: and saw the same dat_w[:4] strobed in the   *)
 (* previous cycle) as its policy input says; dat_r = 8 + j                                             *)
 TBSlave(m, r, iv, j, sl) ==
@@ -133,9 +149,9 @@ TBSlave(m, r, iv, j, sl) ==
       rdy == sl.cyc = 1 /\ sl.stb = 1 /\ (m.minlat = 0 \/ r.seen[j] = sl.dat_w % 16)
   IN [ack |-> B(pol = 1 /\ rdy), err |-> B(pol = 2 /\ rdy), dat_r |-> Word(8 + j, m.dw)]
 TBSeen(m, sls) ==
-  IF m.minlat = 1 THEN [j \in 1..m.ns |-> IF sls[j].cyc = 1 /\ sls[j].stb = 1 THEN sls[j].dat_w % 16 ELSE 0] ELSE <<>>
+  IF m.minlat = 1 THEN Tab(m.ns, LAMBDA j : IF sls[j].cyc = 1 /\ sls[j].stb = 1 THEN sls[j].dat_w % 16 ELSE 0) ELSE <<>>
 DatCode(m, w) == IF w = AllOnes(m.dw) THEN 15                              \* Mux(dat_r == 0xffffffff, 15, dat_r[:4])
-                 ELSE B(0 \in w) + 2 * B(1 \in w) + 4 * B(2 \in w) + 8 * B(3 \in w)
+                 ELSE w[1] % 16
 RECURSIVE OutM(_, _, _), OutS(_, _)
 OutM(m, ups, i) == IF i > m.n THEN <<>> ELSE <<ups[i].ack, ups[i].err, DatCode(m, ups[i].dat_r)>> \o OutM(m, ups, i + 1)
 OutS(sls, j) == IF j > Len(sls) THEN <<>>
@@ -151,14 +167,14 @@ SharedInit(m) ==
   [grant |-> IF m.n > 1 THEN <<0>> ELSE <<>>,
    selr  |-> IF m.register = 1 THEN <<0>> ELSE <<>>,
    count |-> IF m.timeout > 0 THEN <<m.timeout>> ELSE <<>>,
-   seen  |-> IF m.minlat = 1 THEN [j \in 1..m.ns |-> 0] ELSE <<>>]
+   seen  |-> IF m.minlat = 1 THEN Tab(m.ns, LAMBDA j : 0) ELSE <<>>]
 SharedStep(m, r, iv) ==
   LET ms     == TBMasters(m, iv)
       grant  == RRGrant(m.n, r.grant)
       shared == ArbDown(m.n, grant, ms)                       \* forward path
       sel    == DecSel(m, shared.adr)
       sls    == DecDown(m, shared, sel)
-      ss     == [j \in 1..m.ns |-> TBSlave(m, r, iv, j, sls[j])]
+      ss     == Tab(m.ns, LAMBDA j : TBSlave(m, r, iv, j, sls[j]))
       dec    == DecUp(m, DecSelR(m, r.selr, 1, sel), ss)      \* return path
       up     == IF m.timeout > 0 THEN TOUp(m, r.count[1], dec) ELSE dec
       error  == IF m.timeout > 0 THEN B(WTDone(r.count[1])) ELSE 0
@@ -174,23 +190,23 @@ SharedStep(m, r, iv) ==
 (*   row access[i], register);  for every slave j: Arbiter(column          *)
 (*   access[.][j], slave j).  timeout_cycles is not used.                  *)
 XbarInit(m) ==
-  [grant |-> IF m.n > 1 THEN [j \in 1..m.ns |-> 0] ELSE <<>>,
-   selr  |-> IF m.register = 1 THEN [i \in 1..m.n |-> 0] ELSE <<>>,
+  [grant |-> IF m.n > 1 THEN Tab(m.ns, LAMBDA j : 0) ELSE <<>>,
+   selr  |-> IF m.register = 1 THEN Tab(m.n, LAMBDA i : 0) ELSE <<>>,
    count |-> <<>>,
-   seen  |-> IF m.minlat = 1 THEN [j \in 1..m.ns |-> 0] ELSE <<>>]
+   seen  |-> IF m.minlat = 1 THEN Tab(m.ns, LAMBDA j : 0) ELSE <<>>]
 XbarStep(m, r, iv) ==
   LET ms     == TBMasters(m, iv)
-      sel    == [i \in 1..m.n |-> DecSel(m, ms[i].adr)]
-      access == [i \in 1..m.n |-> DecDown(m, ms[i], sel[i])]                 \* row i = decoder i's slave side
-      col(j) == [i \in 1..m.n |-> access[i][j]]
+      sel    == Tab(m.n, LAMBDA i : DecSel(m, ms[i].adr))
+      access == Tab(m.n, LAMBDA i : DecDown(m, ms[i], sel[i]))                 \* row i = decoder i's slave side
+      cols   == Tab(m.ns, LAMBDA j : Tab(m.n, LAMBDA i : access[i][j]))         \* column j = arbiter j's master side
       grant(j) == IF m.n = 1 THEN 0 ELSE r.grant[j]
-      sls    == [j \in 1..m.ns |-> ArbDown(m.n, grant(j), col(j))]
-      ss     == [j \in 1..m.ns |-> TBSlave(m, r, iv, j, sls[j])]
-      cup    == [j \in 1..m.ns |-> ArbUp(m.n, grant(j), ss[j])]              \* per slave: what each master gets back
-      ups    == [i \in 1..m.n |-> DecUp(m, DecSelR(m, r.selr, i, sel[i]), [j \in 1..m.ns |-> cup[j][i]])]
+      sls    == Tab(m.ns, LAMBDA j : ArbDown(m.n, grant(j), cols[j]))
+      ss     == Tab(m.ns, LAMBDA j : TBSlave(m, r, iv, j, sls[j]))
+      cup    == Tab(m.ns, LAMBDA j : ArbUp(m.n, grant(j), ss[j]))              \* per slave: what each master gets back
+      ups    == Tab(m.n, LAMBDA i : DecUp(m, DecSelR(m, r.selr, i, sel[i]), Tab(m.ns, LAMBDA j : cup[j][i])))
   IN [o |-> Outputs(m, ups, sls, 0),
-      r |-> [grant |-> IF m.n > 1 THEN [j \in 1..m.ns |-> RRNext(m.n, r.grant[j], ArbReq(m.n, col(j)))] ELSE <<>>,
-             selr  |-> IF m.register = 1 THEN [i \in 1..m.n |-> CatBits(sel[i], m.ns)] ELSE <<>>,
+      r |-> [grant |-> IF m.n > 1 THEN Tab(m.ns, LAMBDA j : RRNext(m.n, r.grant[j], ArbReq(m.n, cols[j]))) ELSE <<>>,
+             selr  |-> IF m.register = 1 THEN Tab(m.n, LAMBDA i : CatBits(sel[i], m.ns)) ELSE <<>>,
              count |-> <<>>,
              seen  |-> TBSeen(m, sls)]]
 
